@@ -665,6 +665,10 @@ pub struct BlockPlan {
     pub txs: Vec<TxPlan>,
     /// how the routing work relates to the requirement (by construction)
     pub mode: &'static str,
+    /// the block's golden ticket is not a separate fee-less transaction: the plan at this index IS the ticket (a
+    /// GoldenTicket-typed transaction that spends a value input of the miner, pays the planned fee and carries the
+    /// planned path) — legal, its fee counts like any other
+    pub gt_carries: Option<usize>,
 }
 
 pub struct Built {
@@ -713,7 +717,7 @@ impl World {
     }
 
     /// a real, signed transaction spending a genesis output, paying `fee`, carrying `path`
-    fn make_fee_tx(&mut self, r: &mut Rng, plan: &mut TxPlan, salt: u8) -> Option<Transaction> {
+    fn make_fee_tx(&mut self, r: &mut Rng, plan: &mut TxPlan, salt: u8, ticket_for: Option<&Block>) -> Option<Transaction> {
         let u = self.take_utxo(r, Some(plan.sender)).or_else(|| self.take_utxo(r, None))?;
         if u.owner != plan.sender {
             // re-home the plan onto the output's owner (paths that started at the planned sender keep their keys)
@@ -730,6 +734,13 @@ impl World {
         let amt = u.slip.amount;
         let to = 1 + r.below(NKEYS - 1);
         let mut tx = self.f.make_tx(&TxSpec { inputs: vec![u], outputs: vec![(to, amt - plan.fee)], data: vec![salt, r.next() as u8, r.next() as u8] });
+        if let Some(parent) = ticket_for {
+            // the sender mines the ticket; type and payload are part of the signed bytes, the path goes on afterwards
+            let g = self.f.golden_ticket_tx(parent, plan.sender);
+            tx.transaction_type = TransactionType::GoldenTicket;
+            tx.data = g.data;
+            tx.sign(&key(plan.sender).1);
+        }
         apply_path(&mut tx, &plan.path, &self.keys, r);
         Some(tx)
     }
@@ -740,13 +751,23 @@ impl World {
         let mut txs = vec![];
         let mut order: HashMap<SaitoSignature, usize> = HashMap::new();
         let mut plans = plan.txs.clone();
+        let mut ticket = None;
         for (i, tp) in plans.iter_mut().enumerate() {
-            let tx = self.make_fee_tx(r, tp, salt.wrapping_add(i as u8))?;
+            let as_ticket = plan.gt.is_some() && plan.gt_carries == Some(i);
+            let tx = self.make_fee_tx(r, tp, salt.wrapping_add(i as u8), if as_ticket { Some(parent) } else { None })?;
+            if as_ticket {
+                plan.gt = Some(tp.sender);
+                ticket = Some(tx);
+                continue;
+            }
             order.insert(tx.signature, i);
             txs.push(tx);
         }
         plan.txs = plans;
-        let gt = plan.gt.map(|m| self.f.golden_ticket_tx(parent, m));
+        let gt = match ticket {
+            Some(t) => Some(t),
+            None => plan.gt.map(|m| self.f.golden_ticket_tx(parent, m)),
+        };
         let ts = (parent.timestamp as i64 + plan.elapsed) as u64;
         let mut b = self.f.make_block(parent.hash, ts, plan.creator, txs, gt).await.ok()?;
         b.transactions.sort_by_key(|t| match t.transaction_type {
@@ -1097,12 +1118,12 @@ fn plan_test_block(r: &mut Rng, parent: &Block, elapsed: i64, mode: u64, filler_
         let l = txs.len();
         txs.swap(0, l - 1);
     }
-    BlockPlan { creator, elapsed, gt, txs, mode: mode_s }
+    BlockPlan { creator, elapsed, gt, txs, mode: mode_s, gt_carries: None }
 }
 
 fn plan_json(p: &BlockPlan) -> serde_json::Value {
     serde_json::json!({
-        "creator": p.creator, "elapsed": p.elapsed, "ticket": p.gt, "mode": p.mode,
+        "creator": p.creator, "elapsed": p.elapsed, "ticket": p.gt, "mode": p.mode, "ticket_is_tx": p.gt_carries,
         "txs": p.txs.iter().map(|t| format!("sender={} fee={} path={}", t.sender, t.fee,
             t.path.hops.iter().map(|h| format!("{}>{}:{:?}", h.from, h.to, h.sig)).collect::<Vec<_>>().join(","))).collect::<Vec<_>>(),
     })
@@ -1138,7 +1159,7 @@ async fn chain_case(seed: u64, idx: u64, out: &mut Out, forced: Option<(i64, u64
             if txs.iter().all(|t| t.fee == 0) {
                 txs[0].fee = 1 + r.below(1000);
             }
-            BlockPlan { creator, elapsed: *r.pick(&[201i64, 250, 1000, 150, 30]), gt, txs, mode: "prefix" }
+            BlockPlan { creator, elapsed: *r.pick(&[201i64, 250, 1000, 150, 30]), gt, txs, mode: "prefix", gt_carries: None }
         } else {
             let e = *r.pick(&[201i64, 260, 1, 10, 100, 199]);
             let mut p = plan_test_block(&mut r, &parent, e, 2, 0, creator, gt, clean);
@@ -1170,6 +1191,12 @@ async fn chain_case(seed: u64, idx: u64, out: &mut Out, forced: Option<(i64, u64
     let creator = 1 + r.below(NKEYS - 1);
     let gt = if r.coin(1, 2) || force_gt { Some(1 + r.below(NKEYS - 1)) } else { None };
     let mut plan = plan_test_block(&mut r, &parent, elapsed, mode, fk, creator, gt, clean);
+    if plan.gt.is_some() && !plan.txs.is_empty() && forced.is_none() && r.coin(1, 3) {
+        // the transaction that carries most of the planned fees doubles as the block's golden ticket
+        let i = (0..plan.txs.len()).max_by_key(|i| (plan.txs[*i].fee, *i)).unwrap();
+        plan.gt_carries = Some(i);
+        out.count("blk:ticket-carries-fee-and-path");
+    }
     let ctx = serde_json::json!({"seed": seed, "case": idx, "block": "B", "plans": plans.iter().map(plan_json).collect::<Vec<_>>(), "plan": plan_json(&plan)});
     let pp = chain[chain.len() - 2].clone();
     let accepted_b = match w.build(&mut r, &parent, &mut plan, 100).await {
@@ -1199,7 +1226,7 @@ async fn chain_case(seed: u64, idx: u64, out: &mut Out, forced: Option<(i64, u64
     if gt.is_none() && txs.is_empty() {
         txs = decorations(&mut r, creator, 1000, 1, clean);
     }
-    let mut plan = BlockPlan { creator, elapsed: e, gt, txs, mode };
+    let mut plan = BlockPlan { creator, elapsed: e, gt, txs, mode, gt_carries: None };
     let ctx = serde_json::json!({"seed": seed, "case": idx, "block": "C", "plan": plan_json(&plan)});
     if let Some(mut b) = w.build(&mut r, &parent, &mut plan, 200).await {
         let mut tampered = false;
